@@ -256,6 +256,9 @@ func (e *Engine) store(addr *value, v value) {
 	if addr == nil {
 		e.goPanic("runtime error: invalid memory address or nil pointer dereference")
 	}
+	if len(e.roCells) > 0 && e.roCells[addr] {
+		e.unsupported("store through a pointer obtained by symbolic table indexing")
+	}
 	if e.journalOn {
 		e.journal = append(e.journal, undoEntry{addr: addr, old: *addr})
 	}
